@@ -783,7 +783,24 @@ func (s *sim) burstRun(n int) {
 		}
 		time.Sleep(time.Millisecond)
 	}
-	time.Sleep(20 * time.Millisecond) // handlers that were started late
+	// handlers that are started late (a loaded machine): wait until every datagram that decodes has had its invocation, two
+	// seconds at most (a server that drops some is given that long and no longer)
+	want := 0
+	for _, d := range s.all {
+		if d.kind == "valid" && !(s.v4 && d.sender == "nonudp") {
+			want++
+		}
+	}
+	for k := 0; k < 2000; k++ {
+		s.mu.Lock()
+		got := len(s.burstSpawns)
+		s.mu.Unlock()
+		if got >= want {
+			break
+		}
+		time.Sleep(time.Millisecond)
+	}
+	time.Sleep(5 * time.Millisecond)
 	s.burstWG.Wait()
 	s.mu.Lock()
 	reads, spawns, fins := s.burstReads, s.burstSpawns, s.burstFin
